@@ -173,8 +173,8 @@ def build_harness(profile="release", crate="harness"):
 def vh(ctx, args, profile="release", timeout=3600, check=True, env=None):
     b = build_harness(profile)
     r = run([b] + [str(a) for a in args], cwd=ctx.out, timeout=timeout, check=False, env=env)
-    if check and (r.returncode < 0 or r.returncode in (134, 137, 139)):
-        # the executor process was killed while running the code under test (abort from the heap cap / an allocation failure,
+    if check and (r.returncode < 0 or r.returncode in (101, 134, 137, 139)):
+        # the executor process died while running the code under test (a panic outside its own guards = exit 101, abort from the heap cap / an allocation failure,
         # a stack overflow, a segmentation fault): that is behaviour of the code, not of the tool.  On the unchanged tree no
         # executor ever dies, so this cannot raise an alarm there.
         tail = (r.stdout or "")[-400:].replace("\n", " | ")
